@@ -8,6 +8,7 @@ import DuckModel.Scripted
 import DuckModel.Registry
 import DuckModel.Sdk.Condition
 import DuckModel.Spec.Template
+import DuckModel.Spec.TemplateText
 
 namespace Duck.Drv.Core
 open Duck Duck.Wire
@@ -162,22 +163,29 @@ def handle (toks : List String) : Option String :=
       encList written ++ " " ++ (if dom then "DOM" else "NODOM") ++ " " ++ encList expected ++ " " ++
         encList (bind vars (some written))
     | _, _ => bad
-  | ["c02t", vars, targs, text] =>
-    -- the same templates WRITTEN AS SCRIPT TEXT by the harness (`cap <arg> …`, quoted where
-    -- needed, `\${name}` written as such): parse the line, bind the parsed arguments
-    match decVars vars, (targs.splitOn ",").mapM decTArg, decStr text with
-    | some vars, some targs, some text =>
-      let expected := targs.flatMap fun a => match a with
-        | .tmpl t => [Spec.tmplValue vars t]
-        | .spread n => Spec.words ((Vars.get vars n).getD [])
+  | ["c02t", vars, targs, qbits] =>
+    -- the templates WRITTEN AS ONE LINE OF SCRIPT TEXT by the specification
+    -- (`Spec.capLine`: quoted where needed or where bit k of `qbits` says so, `\${name}` written
+    -- as such): parse the line with the parser model, bind the parsed arguments
+    match decVars vars, (targs.splitOn ",").mapM decTArg, qbits.toNat? with
+    | some vars, some targs, some q =>
+      let wargs : List Spec.WArg := targs.zipIdx.map fun (a, k) => match a with
+        | .tmpl t => .tmpl t (q.testBit k)
+        | .spread n => .spread n
+      let text := Spec.capLine "cap".toList wargs
+      let expected := wargs.flatMap (Spec.WArg.expected vars)
+      let nameOK := fun (n : Str) => keyOKb n && n.all fun c => c != '"' && c != '\\'
       let dom := targs.all fun a => match a with
-        | .tmpl t => t.all segOKb
-        | .spread n => keyOKb n && ((Vars.get vars n).getD []).all fun c => c != '"' && c != '#'
+        | .tmpl t => t.all fun sg => segOKb sg && (match sg with | .lit _ => true | .var n => nameOK n | .escVar n => nameOK n)
+        | .spread n => nameOK n && (n.all fun c => !isWs c && c != '#') &&
+            ((Vars.get vars n).getD []).all fun c => c != '"' && c != '#'
       let got := match parseLine text with
-        | .ok (.script si) => encList (bind vars si.args)
+        | .ok (.script si) =>
+          if si.command == some "cap".toList && si.label.isNone && si.output.isNone then encList (bind vars si.args)
+          else "NOT-THE-CAP-LINE"
         | .ok _ => "NOT-A-SCRIPT-LINE"
         | .error e => "PARSE-ERROR-" ++ encPErr e
-      (if dom then "DOM" else "NODOM") ++ " " ++ encList expected ++ " " ++ got
+      "T" ++ encStr text ++ " " ++ (if dom then "DOM" else "NODOM") ++ " " ++ encList expected ++ " " ++ got
     | _, _, _ => bad
   | ["c13t", _, _] =>
     -- second-thread schedule: nothing to compute, the expected verdict is constant (the harness
